@@ -556,17 +556,97 @@ section publish
 open Jesse.Eng StoreProto
 variable {M : Type}
 
-theorem publish_establishes_inv (e : Engine M) (sym m : Nat) (c last : Candle) (t0 : Int)
-    (hs : sym < e.stores.length)
-    (htfs : ((e.cfg.routes ++ e.cfg.dataRoutes).filter (fun r => r.sym = sym ∧ r.tf ≠ 1)).map (·.tf) = [m])
-    (hm : 0 < m) (ht0 : 0 < t0) (hal : t0 % ((m : Int) * 60000) = 0)
+/-- one PUBLISH step on a store whose last stored minute is `c`: the timeframe's array satisfies `StoreInv` afterwards,
+    the 1m array and every other timeframe's array are untouched -/
+theorem pubStep_inv (c : Candle) (X : SymStore) (m : Nat) (t0 : Int) (hm : 0 < m) (ht0 : 0 < t0)
+    (hal : t0 % ((m : Int) * 60000) = 0) (hsp : Spaced t0 X.short) (hlast : X.short.getLast? = some c)
+    (hpre : PreInv m X.short (longOf X m)) :
+    (StoreFrame.pubStep c X m).short = X.short ∧
+    StoreInv m X.short (longOf (StoreFrame.pubStep c X m) m) ∧
+    ∀ m', m' ≠ m → longOf (StoreFrame.pubStep c X m) m' = longOf X m' := by
+  have hne : X.short ≠ [] := by intro h; rw [h] at hlast; simp at hlast
+  have hrows := needed_rows m X.short t0 c hm (le_of_lt ht0) hal hsp hlast
+  unfold StoreFrame.pubStep
+  rw [hrows]
+  have hdne : X.short.drop (k0 m X.short * m) ≠ [] := by
+    have := k0_mul_lt m X.short hm hne
+    intro h0
+    have h1 : (X.short.drop (k0 m X.short * m)).length = 0 := by rw [h0]; rfl
+    rw [List.length_drop] at h1; omega
+  obtain ⟨g, _, hagg, _, _⟩ := aggregate_some _ hdne
+  have hgen : generate m (X.short.drop (k0 m X.short * m)) = .ok g := by rw [generate_is_aggregate, hagg]
+  rw [hgen]
+  refine ⟨rfl, ?_, fun m' h => StoreFrame.longOf_setLong_other X m m' _ h⟩
+  rw [StoreFrame.longOf_setLong_same]
+  exact inv_of_window_candle m X.short (longOf X m) t0 g hm hne ht0 hsp hpre hgen
+
+/-- PUBLISH for a list of timeframes (in any order, repetitions allowed): every timeframe of the list satisfies
+    `StoreInv` at the end, the others keep `PreInv`, the 1m array is untouched -/
+theorem pubFold_inv (c : Candle) (t0 : Int) (ht0 : 0 < t0) (T : List Nat)
+    (hT : ∀ m ∈ T, 0 < m ∧ t0 % ((m : Int) * 60000) = 0) (L : List Nat) (hL : ∀ m ∈ L, m ∈ T) :
+    ∀ (X : SymStore) (D : List Nat), Spaced t0 X.short → X.short.getLast? = some c →
+      (∀ m ∈ T, PreInv m X.short (longOf X m)) → (∀ m ∈ D, StoreInv m X.short (longOf X m)) →
+      (L.foldl (StoreFrame.pubStep c) X).short = X.short ∧
+      (∀ m ∈ T, PreInv m X.short (longOf (L.foldl (StoreFrame.pubStep c) X) m)) ∧
+      (∀ m ∈ D ++ L, StoreInv m X.short (longOf (L.foldl (StoreFrame.pubStep c) X) m)) := by
+  induction L with
+  | nil => intro X D _ _ hpre hD; exact ⟨rfl, hpre, by simpa using hD⟩
+  | cons m rest ih =>
+    intro X D hsp hlast hpre hD
+    have hmT : m ∈ T := hL m List.mem_cons_self
+    obtain ⟨hm, hal⟩ := hT m hmT
+    have hne : X.short ≠ [] := by intro h; rw [h] at hlast; simp at hlast
+    obtain ⟨hs, hinv, hoth⟩ := pubStep_inv c X m t0 hm ht0 hal hsp hlast (hpre m hmT)
+    simp only [List.foldl_cons]
+    have hpre' : ∀ m' ∈ T, PreInv m' (StoreFrame.pubStep c X m).short (longOf (StoreFrame.pubStep c X m) m') := by
+      intro m' hm'
+      rw [hs]
+      by_cases h : m' = m
+      · subst h; exact pre_of_inv m' X.short _ (hT m' hm').1 hne hinv
+      · rw [hoth m' h]; exact hpre m' hm'
+    have hD' : ∀ m' ∈ D ++ [m], StoreInv m' (StoreFrame.pubStep c X m).short (longOf (StoreFrame.pubStep c X m) m') := by
+      intro m' hm'
+      rw [hs]
+      by_cases h : m' = m
+      · subst h; exact hinv
+      · rw [hoth m' h]
+        rcases List.mem_append.mp hm' with h1 | h1
+        · exact hD m' h1
+        · exact absurd (List.mem_singleton.mp h1) h
+    obtain ⟨r1, r2, r3⟩ := ih (fun x hx => hL x (List.mem_cons_of_mem _ hx)) (StoreFrame.pubStep c X m) (D ++ [m])
+      (by rw [hs]; exact hsp) (by rw [hs]; exact hlast) hpre' hD'
+    rw [hs] at r1 r2 r3
+    refine ⟨r1, r2, ?_⟩
+    intro m' hm'
+    apply r3 m'
+    simp only [List.mem_append, List.mem_cons, List.mem_singleton, List.not_mem_nil, or_false] at hm' ⊢
+    rcases hm' with h | h | h
+    · exact Or.inl (Or.inl h)
+    · exact Or.inl (Or.inr h)
+    · exact Or.inr h
+
+/-- the bigger timeframes of a symbol, as `_update_all_routes_a_partial_candle` walks them -/
+def tfsRaw (cfg : Cfg) (sym : Nat) : List Nat :=
+  ((cfg.routes ++ cfg.dataRoutes).filter (fun r => r.sym = sym ∧ r.tf ≠ 1)).map (·.tf)
+
+/-- THE ENGINE'S PUBLISH ESTABLISHES THE INVARIANT FOR EVERY TIMEFRAME OF THE SYMBOL: if the store of the symbol
+    satisfied `PreInv` for each of its bigger timeframes (which NEW MINUTE and REPLACE LAST keep), then after
+    `_update_all_routes_a_partial_candle` with a candle carrying the last stored minute's timestamp the 1m array ends
+    with that candle and EVERY bigger timeframe satisfies `StoreInv` — so every hook fired by the execution that follows
+    reads, through `get_candles` / `get_current_candle`, exactly one candle per started window, each the aggregate of
+    its stored minutes (`get_candles_spec`), because no strategy writes the store. -/
+theorem publish_establishes_inv (e : Engine M) (sym : Nat) (c last : Candle) (t0 : Int)
+    (hs : sym < e.stores.length) (ht0 : 0 < t0)
+    (hT : ∀ m ∈ tfsRaw e.cfg sym, 0 < m ∧ t0 % ((m : Int) * 60000) = 0)
     (hsp : Spaced t0 (storeOf e sym).short)
     (hlast : (storeOf e sym).short.getLast? = some last) (hts : c.ts = last.ts)
-    (hpre : PreInv m (storeOf e sym).short (longOf (storeOf e sym) m)) :
-    StoreInv m (storeOf (updatePartialCandle e sym c) sym).short
+    (hpre : ∀ m ∈ tfsRaw e.cfg sym, PreInv m (storeOf e sym).short (longOf (storeOf e sym) m)) :
+    (storeOf (updatePartialCandle e sym c) sym).short = (storeOf e sym).short.dropLast ++ [c] ∧
+    Spaced t0 (storeOf (updatePartialCandle e sym c) sym).short ∧
+    ∀ m ∈ tfsRaw e.cfg sym, StoreInv m (storeOf (updatePartialCandle e sym c) sym).short
       (longOf (storeOf (updatePartialCandle e sym c) sym) m) := by
-  rw [StoreFrame.updatePartialCandle_store e sym c hs, htfs]
-  simp only [List.foldl_cons, List.foldl_nil]
+  rw [StoreFrame.updatePartialCandle_store e sym c hs]
+  unfold tfsRaw at hT hpre
   generalize hS : storeOf e sym = S at *
   have hne : S.short ≠ [] := by intro h; rw [h] at hlast; simp at hlast
   have hpos : 0 < S.short.length := List.length_pos_iff.mpr hne
@@ -582,9 +662,9 @@ theorem publish_establishes_inv (e : Engine M) (sym m : Nat) (c last : Candle) (
     have hl0 : ¬ last.ts = 0 := by rw [← hts]; exact hc0
     have hngt : ¬ last.ts > last.ts := lt_irrefl _
     simp only [hts, hl0, if_false, hlast, hngt, if_true]
+  rw [hadd]
   set short' := S.short.dropLast ++ [c] with hshort'
   have hlen' : short'.length = S.short.length := by simp [hshort']; omega
-  have hne' : short' ≠ [] := by simp [hshort']
   have hsp' : Spaced t0 short' := by
     intro j hj
     by_cases hjl : j < S.short.dropLast.length
@@ -601,26 +681,15 @@ theorem publish_establishes_inv (e : Engine M) (sym m : Nat) (c last : Candle) (
         simp
       rw [this, hts, hlts, hj']
   have hlast' : short'.getLast? = some c := by simp [hshort']
-  have hpre' : PreInv m short' (longOf S m) := pre_of_replace_last m S.short (longOf S m) c last hm hlast hts hpre
-  -- PUBLISH: the rows selected by timestamp are the window of the last stored minute
-  have hrows := needed_rows m short' t0 c hm (le_of_lt ht0) hal hsp' hlast'
-  unfold StoreFrame.pubStep
-  simp only [hadd]
-  rw [hrows]
-  have hdne : short'.drop (k0 m short' * m) ≠ [] := by
-    have := k0_mul_lt m short' hm hne'
-    intro h0
-    have h1 : (short'.drop (k0 m short' * m)).length = 0 := by rw [h0]; rfl
-    rw [List.length_drop] at h1; omega
-  obtain ⟨g, _, hagg, _, _⟩ := aggregate_some _ hdne
-  have hgen : generate m (short'.drop (k0 m short' * m)) = .ok g := by rw [generate_is_aggregate, hagg]
-  rw [hgen]
-  have hlong : longOf (setLong { S with short := short' } m (addCandle (longOf { S with short := short' } m) g)) m
-      = addCandle (longOf S m) g := by
-    simp [longOf, setLong]
-  have hshort : (setLong { S with short := short' } m (addCandle (longOf { S with short := short' } m) g)).short = short' := rfl
-  rw [hlong, hshort]
-  exact inv_of_window_candle m short' (longOf S m) t0 g hm hne' ht0 hsp' hpre' hgen
+  have hpre' : ∀ m ∈ ((e.cfg.routes ++ e.cfg.dataRoutes).filter (fun r => r.sym = sym ∧ r.tf ≠ 1)).map (·.tf),
+      PreInv m ({ S with short := short' } : SymStore).short (longOf ({ S with short := short' } : SymStore) m) :=
+    fun m hm => pre_of_replace_last m S.short (longOf S m) c last (hT m hm).1 hlast hts (hpre m hm)
+  obtain ⟨r1, _, r3⟩ := pubFold_inv c t0 ht0 _ hT _ (fun m hm => hm) ({ S with short := short' } : SymStore) []
+    hsp' hlast' hpre' (by intro m hm; cases hm)
+  refine ⟨r1, by rw [r1]; exact hsp', ?_⟩
+  intro m hm
+  rw [r1]
+  exact r3 m (by rw [List.nil_append]; exact hm)
 
 end publish
 
